@@ -18,6 +18,7 @@ import (
 	"time"
 
 	"github.com/Comcast/sheens/core"
+	"github.com/Comcast/sheens/crew"
 	"github.com/Comcast/sheens/match"
 )
 
@@ -210,6 +211,9 @@ func verifRunCase(dir string, c *verifCase) {
 	verifReloadPlain = true
 	if !down {
 		c.Probe["noLostUpdate"] = verifConcurrent(ctx, s)
+		if c.Id%20 == 2 {
+			c.Probe["readIsSnapshot"] = verifReadSnapshot(ctx, s)
+		}
 		if c.Id%3 == 0 {
 			c.Probe["emissionsFedBackOnce"] = verifFanout(ctx, s, specDir)
 		}
@@ -322,6 +326,75 @@ func verifConcurrent(ctx context.Context, s *Service) bool {
 		ok = false
 	}
 	return ok
+}
+
+// verifReadSnapshot: a read of the crew is a snapshot.  One writer sends a message to counting
+// machine A, then one to counting machine B, over and over; every state between two requests has
+// A's count equal to B's or one ahead.  Readers copy the crew meanwhile (a few idle machines with
+// large bindings make a copy take its time): what a reader sees must be such a state.
+func verifReadSnapshot(ctx context.Context, s *Service) bool {
+	mids := []string{}
+	before := map[string]float64{}
+	s.crew.RLock()
+	for mid, m := range s.crew.Machines {
+		if m.State.NodeName == "listen" {
+			mids = append(mids, mid)
+			n, _ := m.State.Bs["n"].(float64)
+			before[mid] = n
+		}
+	}
+	s.crew.RUnlock()
+	sort.Strings(mids)
+	if len(mids) < 2 {
+		return true
+	}
+	a, b := mids[0], mids[1]
+	big := match.Bindings{}
+	for i := 0; i < 20000; i++ {
+		big[fmt.Sprintf("k%d", i)] = float64(i)
+	}
+	for i := 0; i < 3; i++ {
+		s.AddMachine(ctx, "nospec", fmt.Sprintf("big-%d", i), "idle", big)
+	}
+	defer func() {
+		for i := 0; i < 3; i++ {
+			s.RemMachine(ctx, fmt.Sprintf("big-%d", i))
+		}
+	}()
+	count := func(c *crew.Crew, mid string) (float64, bool) {
+		m := c.Machines[mid]
+		if m == nil || m.State == nil || m.State.NodeName != "listen" {
+			return 0, false
+		}
+		n, _ := m.State.Bs["n"].(float64)
+		return n - before[mid], true
+	}
+	var stop int32
+	ok := int32(1)
+	var wg sync.WaitGroup
+	for r := 0; r < 4; r++ {
+		wg.Add(1)
+		go func() {
+			defer wg.Done()
+			for atomic.LoadInt32(&stop) == 0 {
+				c := s.crew.Copy()
+				na, okA := count(c, a)
+				nb, okB := count(c, b)
+				if okA && okB && !(na == nb || na == nb+1) {
+					atomic.StoreInt32(&ok, 0)
+				}
+			}
+		}()
+	}
+	for i := 0; i < 30; i++ {
+		s.Process(ctx, map[string]interface{}{"to": a, "d": 2.0}, nil)
+		s.Process(ctx, map[string]interface{}{"to": b, "d": 2.0}, nil)
+	}
+	atomic.StoreInt32(&stop, 1)
+	if !verifWait(&wg, 20*time.Second) {
+		return false
+	}
+	return ok == 1
 }
 
 // verifFanout: one action emits several messages in a single stride; the service feeds each of
